@@ -82,6 +82,12 @@ func memMap(form string, v int, gperf bool) string {
 		b.WriteString("00000008-00001000 r-xp 00000000 fd:01 1234 /bin/exe\n")
 		b.WriteString("00003000-00004000 rw-p 00002000 fd:01 1234 /bin/exe\n")
 		b.WriteString("00001000-00002000 r-xp 00000000 fd:01 99   /lib/libc.so.6\n")
+	case "offsetlib":
+		// the map lists only the second part of the library, at file offset 0x800: addresses in [start-offset, start)
+		// belong to it as well (the mapping is extended downwards and its offset becomes 0)
+		b.WriteString("--- Memory map: ---\n")
+		b.WriteString("00000008-00001000 r-xp 00000000 fd:01 1234 /bin/exe\n")
+		b.WriteString("00001800-00002000 r-xp 00000800 fd:01 99   /lib/libc.so.6\n")
 	case "split3":
 		// the executable as three adjacent entries with consecutive file offsets: one mapping again after parsing;
 		// the addresses 16, 17 and 32 of the catalogue fall into the first, second and third piece
